@@ -341,6 +341,7 @@ def run_check(engine_name, prop, tier, seed):
                 break
         unshrunk = order[max_shrunk:]
         seen_sigs = set()
+        to_confirm = []
         for s, fut in jobs:
             try:
                 rec, oc, calls = fut.result(timeout=max(60, shrink_budget_s - (common.now() - t_shr)))
@@ -360,16 +361,19 @@ def run_check(engine_name, prop, tier, seed):
             }
             with open(path, "w") as fh:
                 json.dump(doc, fh, indent=1, sort_keys=True, default=repr)
-            # confirm twice in fresh interpreters (one under another hash seed)
-            ok = True
-            classes = []
-            for hs in ("0", "777"):
-                code, cls, tail = _replay_subprocess(prop, path, hs)
-                classes.append(cls)
-                if not cls:
-                    ok = False
+            to_confirm.append((path, rec, oc, sig))
+
+        # confirm every replay file twice in fresh interpreters (one under another hash seed); a few at a time
+        def _confirm(item):
+            path, rec, oc, sig = item
+            classes = [_replay_subprocess(prop, path, hs)[1] for hs in ("0", "777")]
             want = "%s|%s|%s" % (oc["violation"]["oracle"], oc["violation"].get("cls"), oc["violation"].get("step")) if oc.get("violation") else ""
-            if not ok or any(c != want for c in classes):
+            return item, classes, want
+
+        with cf.ThreadPoolExecutor(max_workers=max(2, WORKERS // 2)) as tex:
+            confirmed = list(tex.map(_confirm, to_confirm))
+        for (path, rec, oc, sig), classes, want in confirmed:
+            if not all(classes) or any(c != want for c in classes):
                 harness_errors.append("replay of %s did not reproduce identically: wanted %r got %r" % (path, want, classes))
                 continue
             k = findings.match(known, prop, sig)
